@@ -29,11 +29,23 @@ func main() {
 	dump := flag.String("dump-scenarios", "", "also write the generated scenarios here")
 	verbosity := flag.Int("v", 0, "scheduler log verbosity")
 	watchdog := flag.Int("watchdog", 120, "seconds per scenario before the process aborts (exit 3)")
+	acct := flag.String("acct", "", "also record the node accounting of every simulation step of every cycle here (ndjson for spec/NodeAcctCycleTrace.tla; default off)")
+	acctMax := flag.Int("acct-max", 300, "-acct: observations kept per cycle and node")
 	flag.Parse()
 	_ = log.InitLoggers(*verbosity)
 	w, err := tracefmt.Create(*out)
 	if err != nil {
 		panic(err)
+	}
+	var opt world.Options
+	var aw *tracefmt.Writer
+	if *acct != "" {
+		aw, err = tracefmt.Create(*acct)
+		if err != nil {
+			panic(err)
+		}
+		opt.Acct = aw.Emit
+		world.AcctMaxObs = *acctMax
 	}
 	var scs []*world.Scenario
 	if *random > 0 {
@@ -73,7 +85,7 @@ func main() {
 			fmt.Fprintf(os.Stderr, "SCENARIO %s\n", sc.ID)
 		}
 		done := make(chan error, 1)
-		go func() { done <- world.Run(sc, w.Emit) }()
+		go func() { done <- world.RunWith(sc, w.Emit, opt) }()
 		select {
 		case err := <-done:
 			if err != nil {
@@ -90,6 +102,14 @@ func main() {
 	}
 	if err := w.Close(); err != nil {
 		panic(err)
+	}
+	if aw != nil {
+		if err := aw.Close(); err != nil {
+			panic(err)
+		}
+		st, _ := json.Marshal(world.AcctStats)
+		fmt.Printf("{\"scenarios\": %d, \"events\": %d, \"acct_lines\": %d, \"acct\": %s}\n", n, w.Count(), aw.Count(), st)
+		return
 	}
 	fmt.Printf("{\"scenarios\": %d, \"events\": %d}\n", n, w.Count())
 }
